@@ -1,1 +1,449 @@
-//! C08 harnesses (see /verif/tools/HARNESS_GUIDE.md).
+//! C08 — NaN and None are the same null, and nulls are transparent (Engine K part: order statistics,
+//! extrema, counts, exact sums, first / last; encoding independence of the exact functions).
+//!
+//! Null transparency: a series `s` of concrete length N, described by integer keys
+//! `[Option<i32>; N]`, and `s'` = `s` with ONE null inserted before a symbolic position p in 0..=N
+//! (length M = N + 1) are run through the same function; the results must agree exactly. Every
+//! insertion / deletion pattern of nulls is a composition of single insertions, so the one-step law
+//! at every length gives the statement's "at any positions" by induction.
+//! Arg-extrema: `r' = r + 1` if the null went in at or before the reported position (`p <= r`),
+//! `r' = r` otherwise; null stays null.
+//!
+//! Encoding independence: one key array encoded as `Vec<f64>` (NaN) and as `Vec<Option<f64>>` (None,
+//! never `Some(NaN)`, DESIGN 5.4) — results agree up to the encoding of the result; `ts_vmin` /
+//! `ts_vsum` asked for `Vec<f64>` and for `Vec<Option<f64>>` output agree element-wise (NaN <-> None).
+//!
+//! Isolated (defect owned by C12: the `n == 1` shortcut of `vquantile` reads slot 0 instead of the
+//! single valid element): `c08_quantile_single_valid_*` / `c08_median_single_valid_*`; the main
+//! quantile harnesses assume that the number of valid elements is not 1.
+use tea_agg::{AggValidExt, PercentileOfMethod, QuantileMethod, VecAggValidExt};
+use tea_core::prelude::*;
+use tea_rolling::*;
+
+use crate::util::*;
+
+// ---------------------------------------------------------------------------------------------
+// keys and elements
+// ---------------------------------------------------------------------------------------------
+
+#[derive(Clone, Copy, PartialEq)]
+pub enum Alpha {
+    /// -2..=2: forces ties
+    Small,
+    /// unconstrained i32
+    Any,
+    /// -1000..=1000: i32 sums cannot overflow
+    Sum,
+}
+
+pub fn keys<const N: usize>(alpha: Alpha) -> [Option<i32>; N] {
+    let mut k = [None; N];
+    let mut i = 0;
+    while i < N {
+        let v: i32 = match alpha {
+            Alpha::Small => small_i32(-2, 2),
+            Alpha::Any => kani::any(),
+            Alpha::Sum => small_i32(-1000, 1000),
+        };
+        if kani::any() {
+            k[i] = Some(v);
+        }
+        i += 1;
+    }
+    k
+}
+
+pub trait Elt: Copy + IsNone + PartialEq + Cast<f64> + 'static {
+    fn from_key(k: Option<i32>) -> Self;
+}
+impl Elt for Option<i32> {
+    fn from_key(k: Option<i32>) -> Self {
+        k
+    }
+}
+impl Elt for f64 {
+    fn from_key(k: Option<i32>) -> Self {
+        match k {
+            Some(v) => v as f64,
+            None => f64::NAN,
+        }
+    }
+}
+impl Elt for Option<f64> {
+    fn from_key(k: Option<i32>) -> Self {
+        match k {
+            Some(v) => Some(v as f64),
+            None => None,
+        }
+    }
+}
+
+pub fn to_vec<E: Elt, const N: usize>(k: &[Option<i32>; N]) -> Vec<E> {
+    let mut v = Vec::with_capacity(N);
+    let mut i = 0;
+    while i < N {
+        v.push(E::from_key(k[i]));
+        i += 1;
+    }
+    v
+}
+
+pub fn n_valid<const N: usize>(k: &[Option<i32>; N]) -> usize {
+    let mut n = 0;
+    let mut i = 0;
+    while i < N {
+        if k[i].is_some() {
+            n += 1;
+        }
+        i += 1;
+    }
+    n
+}
+
+/// `s` with a null inserted before position `p` (p in 0..=N); M must be N + 1
+pub fn with_null<const N: usize, const M: usize>(s: &[Option<i32>; N], p: usize) -> [Option<i32>; M] {
+    let mut t = [None; M];
+    let mut i = 0;
+    while i < M {
+        if i < p && i < N {
+            t[i] = s[i];
+        } else if i > p {
+            t[i] = s[i - 1];
+        }
+        i += 1;
+    }
+    t
+}
+
+pub fn any_pos<const N: usize>() -> usize {
+    let p: usize = kani::any();
+    kani::assume(p <= N);
+    p
+}
+
+/// both null, or the same number
+pub fn same_f64(a: f64, b: f64) -> bool {
+    (a != a && b != b) || a == b
+}
+
+#[derive(Default)]
+pub struct Fl {
+    /// the null went in before a valid element
+    pub before_valid: bool,
+    /// the null went in after the last valid element
+    pub after_all: bool,
+    /// a non-null result
+    pub value: bool,
+    /// a null result (nothing valid)
+    pub null: bool,
+    /// the reported position moved
+    pub shifted: bool,
+    /// the reported position stayed
+    pub stayed: bool,
+    /// a percentile rank strictly between 0 and 1
+    pub interior: bool,
+}
+
+pub fn ins_witness<const N: usize>(s: &[Option<i32>; N], p: usize, fl: &mut Fl) {
+    let mut i = 0;
+    let mut later = false;
+    while i < N {
+        if i >= p && s[i].is_some() {
+            later = true;
+        }
+        i += 1;
+    }
+    let nv = n_valid(s);
+    if later {
+        fl.before_valid = true;
+    }
+    if !later && nv > 0 {
+        fl.after_all = true;
+    }
+    if nv > 0 {
+        fl.value = true;
+    } else {
+        fl.null = true;
+    }
+}
+
+// ---------------------------------------------------------------------------------------------
+// null insertion: extrema, arg-extrema, count, first / last
+// ---------------------------------------------------------------------------------------------
+
+pub fn shifted(r: Option<usize>, p: usize) -> Option<usize> {
+    match r {
+        None => None,
+        Some(i) => Some(if p <= i { i + 1 } else { i }),
+    }
+}
+
+pub fn ins_extrema<E: Elt, const N: usize, const M: usize>(alpha: Alpha, fl: &mut Fl)
+where
+    E::Inner: Number,
+{
+    let s = keys::<N>(alpha);
+    let p = any_pos::<N>();
+    let t: [Option<i32>; M] = with_null(&s, p);
+    ins_witness(&s, p, fl);
+    let (a, b): (Vec<E>, Vec<E>) = (to_vec(&s), to_vec(&t));
+    assert!(a.titer().count_valid() == b.titer().count_valid(), "count_valid is unchanged by an inserted null");
+    assert!(a.titer().count_none() + 1 == b.titer().count_none(), "count_none grows by one with an inserted null");
+    assert!(a.titer().vmin() == b.titer().vmin(), "vmin is unchanged by an inserted null");
+    assert!(a.titer().vmax() == b.titer().vmax(), "vmax is unchanged by an inserted null");
+    let (r, r2) = (a.titer().vargmin(), b.titer().vargmin());
+    assert!(r2 == shifted(r, p), "vargmin moves by one exactly when the null is inserted at or before it");
+    if let Some(i) = r {
+        if p <= i {
+            fl.shifted = true;
+        } else {
+            fl.stayed = true;
+        }
+    }
+    let (r, r2) = (a.titer().vargmax(), b.titer().vargmax());
+    assert!(r2 == shifted(r, p), "vargmax moves by one exactly when the null is inserted at or before it");
+    // valid elements are non-NaN, so `==` on the options is exact equality of the elements
+    assert!(a.titer().vfirst() == b.titer().vfirst(), "vfirst is unchanged by an inserted null");
+    assert!(a.titer().vlast() == b.titer().vlast(), "vlast is unchanged by an inserted null");
+}
+
+/// exact sums and the integer mean (one division of equal operands)
+pub fn ins_sum<const N: usize, const M: usize>(fl: &mut Fl) {
+    let s = keys::<N>(Alpha::Sum);
+    let p = any_pos::<N>();
+    let t: [Option<i32>; M] = with_null(&s, p);
+    ins_witness(&s, p, fl);
+    let (a, b): (Vec<Option<i32>>, Vec<Option<i32>>) = (s.to_vec(), t.to_vec());
+    assert!(a.titer().vsum() == b.titer().vsum(), "vsum is unchanged by an inserted null");
+    assert!(same_f64(a.titer().vmean(), b.titer().vmean()), "vmean of integers is unchanged by an inserted null");
+}
+
+// ---------------------------------------------------------------------------------------------
+// null insertion: quantiles, median, percentile rank
+// ---------------------------------------------------------------------------------------------
+
+pub fn method_of(m: u8) -> QuantileMethod {
+    match m {
+        0 => QuantileMethod::Lower,
+        1 => QuantileMethod::Higher,
+        _ => QuantileMethod::MidPoint,
+    }
+}
+
+pub const QS: [f64; 3] = [0.0, 0.5, 1.0];
+
+/// no `.unwrap()`: its failure path formats and drops a `TError` (see c12.rs)
+pub fn quantile_of<E: Elt>(v: &Vec<E>, q: f64, m: QuantileMethod) -> f64
+where
+    E::Inner: Number,
+{
+    match v.vquantile(q, m) {
+        Ok(x) => x,
+        Err(e) => {
+            std::mem::forget(e);
+            assert!(false, "q in [0, 1] is accepted");
+            f64::NAN
+        },
+    }
+}
+
+/// `single`: restrict to exactly one valid element (the isolated slice), otherwise exclude it
+pub fn ins_quantile<E: Elt, const N: usize, const M: usize>(alpha: Alpha, single: bool, fl: &mut Fl)
+where
+    E::Inner: Number,
+{
+    let s = keys::<N>(alpha);
+    let nv = n_valid(&s);
+    kani::assume((nv == 1) == single);
+    let p = any_pos::<N>();
+    let t: [Option<i32>; M] = with_null(&s, p);
+    ins_witness(&s, p, fl);
+    let qi: usize = kani::any();
+    kani::assume(qi < 3);
+    let m: u8 = kani::any();
+    kani::assume(m < 3);
+    let (a, b): (Vec<E>, Vec<E>) = (to_vec(&s), to_vec(&t));
+    let (ra, rb) = (quantile_of(&a, QS[qi], method_of(m)), quantile_of(&b, QS[qi], method_of(m)));
+    if single {
+        assert!(same_f64(ra, rb), "vquantile of a single valid element is unchanged by an inserted null");
+    } else {
+        assert!(same_f64(ra, rb), "vquantile is unchanged by an inserted null");
+    }
+}
+
+pub fn ins_median<E: Elt, const N: usize, const M: usize>(alpha: Alpha, single: bool, fl: &mut Fl)
+where
+    E::Inner: Number,
+{
+    let s = keys::<N>(alpha);
+    let nv = n_valid(&s);
+    kani::assume((nv == 1) == single);
+    let p = any_pos::<N>();
+    let t: [Option<i32>; M] = with_null(&s, p);
+    ins_witness(&s, p, fl);
+    let (a, b): (Vec<E>, Vec<E>) = (to_vec(&s), to_vec(&t));
+    let (ra, rb) = (quantile_of(&a, 0.5, QuantileMethod::Linear), quantile_of(&b, 0.5, QuantileMethod::Linear));
+    if single {
+        assert!(same_f64(ra, rb), "vmedian of a single valid element is unchanged by an inserted null");
+    } else {
+        assert!(same_f64(ra, rb), "vmedian is unchanged by an inserted null");
+    }
+}
+
+pub fn ins_percentile<E: Elt, const N: usize, const M: usize>(alpha: Alpha, fl: &mut Fl)
+where
+    E::Inner: Number,
+{
+    let s = keys::<N>(alpha);
+    let p = any_pos::<N>();
+    let t: [Option<i32>; M] = with_null(&s, p);
+    ins_witness(&s, p, fl);
+    let score: Option<i32> = if kani::any() {
+        Some(match alpha {
+            Alpha::Small => small_i32(-3, 3),
+            _ => kani::any(),
+        })
+    } else {
+        None
+    };
+    let m: u8 = kani::any();
+    kani::assume(m < 3);
+    let method = match m {
+        0 => PercentileOfMethod::Rank,
+        1 => PercentileOfMethod::Weak,
+        _ => PercentileOfMethod::Strict,
+    };
+    let (a, b): (Vec<E>, Vec<E>) = (to_vec(&s), to_vec(&t));
+    let ra = a.titer().vpercentile_of(E::from_key(score), method);
+    let rb = b.titer().vpercentile_of(E::from_key(score), method);
+    assert!(same_f64(ra, rb), "vpercentile_of is unchanged by an inserted null");
+    if score.is_some() && ra == ra && ra > 0.0 && ra < 1.0 {
+        fl.interior = true;
+    }
+}
+
+// ---------------------------------------------------------------------------------------------
+// encoding independence
+// ---------------------------------------------------------------------------------------------
+
+#[derive(Default)]
+pub struct EFl {
+    pub mixed: bool,
+    pub null_first: bool,
+    pub all_null: bool,
+    pub null_out: bool,
+    pub value_out: bool,
+}
+
+pub fn enc_witness<const N: usize>(k: &[Option<i32>; N], fl: &mut EFl) {
+    let nv = n_valid(k);
+    if nv > 0 && nv < N {
+        fl.mixed = true;
+    }
+    if N > 0 && nv == 0 {
+        fl.all_null = true;
+    }
+    if N > 0 && k[0].is_none() && nv > 0 {
+        fl.null_first = true;
+    }
+}
+
+/// NaN-encoded and None-encoded input give the same exact aggregations
+pub fn enc_exact<const N: usize>(fl: &mut EFl) {
+    let k = keys::<N>(Alpha::Small);
+    enc_witness(&k, fl);
+    let (a, b): (Vec<f64>, Vec<Option<f64>>) = (to_vec(&k), to_vec(&k));
+    assert!(a.titer().count_valid() == b.titer().count_valid(), "count_valid agrees between the NaN and the None encoding");
+    assert!(a.titer().count_none() == b.titer().count_none(), "count_none agrees between the NaN and the None encoding");
+    assert!(a.titer().vmin() == b.titer().vmin(), "vmin agrees between the NaN and the None encoding");
+    assert!(a.titer().vmax() == b.titer().vmax(), "vmax agrees between the NaN and the None encoding");
+    assert!(a.titer().vargmin() == b.titer().vargmin(), "vargmin agrees between the NaN and the None encoding");
+    assert!(a.titer().vargmax() == b.titer().vargmax(), "vargmax agrees between the NaN and the None encoding");
+    // vfirst / vlast return the element in its own encoding: x <-> Some(x), never a null inside
+    match (a.titer().vfirst(), b.titer().vfirst()) {
+        (None, None) => {},
+        (Some(x), Some(Some(y))) => assert!(x == y, "vfirst agrees between the NaN and the None encoding"),
+        _ => assert!(false, "vfirst is null in one encoding exactly when it is null in the other"),
+    }
+    match (a.titer().vlast(), b.titer().vlast()) {
+        (None, None) => {},
+        (Some(x), Some(Some(y))) => assert!(x == y, "vlast agrees between the NaN and the None encoding"),
+        _ => assert!(false, "vlast is null in one encoding exactly when it is null in the other"),
+    }
+}
+
+pub fn enc_quantile<const N: usize>(fl: &mut EFl) {
+    let k = keys::<N>(Alpha::Small);
+    enc_witness(&k, fl);
+    let qi: usize = kani::any();
+    kani::assume(qi < 3);
+    let (a, b): (Vec<f64>, Vec<Option<f64>>) = (to_vec(&k), to_vec(&k));
+    let (ra, rb) = (quantile_of(&a, QS[qi], QuantileMethod::Lower), quantile_of(&b, QS[qi], QuantileMethod::Lower));
+    assert!(same_f64(ra, rb), "vquantile(Lower) agrees between the NaN and the None encoding");
+}
+
+pub fn any_params<const N: usize>() -> (usize, Option<usize>) {
+    let w: usize = kani::any();
+    kani::assume(w >= 1 && w <= N + 1);
+    let m: usize = kani::any();
+    kani::assume(m <= N + 1);
+    let mp = if kani::any() { Some(m) } else { None };
+    (w, mp)
+}
+
+/// element-wise NaN <-> None, value <-> Some(value)
+pub fn same_out<const N: usize>(a: &Vec<f64>, b: &Vec<Option<f64>>, fl: &mut EFl) -> bool {
+    if a.len() != N || b.len() != N {
+        return false;
+    }
+    let mut ok = true;
+    let mut i = 0;
+    while i < N {
+        match b[i] {
+            None => {
+                fl.null_out = true;
+                if a[i] == a[i] {
+                    ok = false;
+                }
+            },
+            Some(y) => {
+                fl.value_out = true;
+                if !(a[i] == y) {
+                    ok = false;
+                }
+            },
+        }
+        i += 1;
+    }
+    ok
+}
+
+/// `ts_vmin` / `ts_vsum` on Option<i32> data: f64 output vs Option<f64> output
+pub fn enc_output<const N: usize>(fl: &mut EFl) {
+    let k = keys::<N>(Alpha::Sum);
+    enc_witness(&k, fl);
+    let (w, mp) = any_params::<N>();
+    let v: Vec<Option<i32>> = k.to_vec();
+    let a: Vec<f64> = v.ts_vmin(w, mp);
+    let b: Vec<Option<f64>> = v.ts_vmin(w, mp);
+    assert!(same_out::<N>(&a, &b, fl), "ts_vmin gives the same values as f64 (NaN) and as Option<f64> (None) output");
+    let a: Vec<f64> = v.ts_vsum(w, mp);
+    let b: Vec<Option<f64>> = v.ts_vsum(w, mp);
+    assert!(same_out::<N>(&a, &b, fl), "ts_vsum gives the same values as f64 (NaN) and as Option<f64> (None) output");
+}
+
+/// `ts_vmin` on the NaN and the None encoding of one float series (comparisons only)
+pub fn enc_input_rolling<const N: usize>(fl: &mut EFl) {
+    let k = keys::<N>(Alpha::Small);
+    enc_witness(&k, fl);
+    let (w, mp) = any_params::<N>();
+    let (x, y): (Vec<f64>, Vec<Option<f64>>) = (to_vec(&k), to_vec(&k));
+    let a: Vec<f64> = x.ts_vmin(w, mp);
+    let b: Vec<Option<f64>> = y.ts_vmin(w, mp);
+    assert!(same_out::<N>(&a, &b, fl), "ts_vmin agrees between NaN input / f64 output and None input / Option<f64> output");
+    let a: Vec<f64> = x.ts_vmax(w, mp);
+    let b: Vec<Option<f64>> = y.ts_vmax(w, mp);
+    assert!(same_out::<N>(&a, &b, fl), "ts_vmax agrees between NaN input / f64 output and None input / Option<f64> output");
+}
+
+include!("c08_gen.rs");
